@@ -32,6 +32,30 @@ Definition in_region (b : path) (i len : nat) (q : path) : bool :=
 Definition rg_clear (L : list rule) (a : irules) : Prop :=
   all a = false /\ (forall r, mem r L = true -> mem r (rules a) = false) /\ (L = [] -> rules a = []).
 
+(* ------------------------------------------------------------------ results of the walk *)
+Definition r_st (r : rres) : istate := fst (fst (fst r)).
+Definition r_qv (r : rres) : list diag := snd (fst (fst r)).
+Definition r_qp (r : rres) : list diag := snd (fst r).
+Definition r_out (r : rres) : list diag := snd r.
+
+(* two runs end in the same state; the queues and the output of the first are those of the second
+   filtered by F *)
+Definition sim_eq (F : diag -> bool) (r' r : rres) : Prop :=
+  r_st r' = r_st r /\ r_qv r' = filter F (r_qv r) /\ r_qp r' = filter F (r_qp r) /\ r_out r' = filter F (r_out r).
+
+(* a diagnostic located in the subtree at p0 whose rule the list L names *)
+Definition covers (P0 : path) (L : list rule) (d : diag) : bool := is_prefix P0 (fst d) && named L (snd d).
+
+(* keeps every diagnostic except those located in the statements i .. i+len-1 of the list owned by b
+   and named by L *)
+Definition region_filter (b : path) (i len : nat) (L : list rule) (d : diag) : bool :=
+  negb (in_region b i len (fst d) && named L (snd d)).
+
+Definition free_list (l : list (list byte)) : bool := forallb (fun c => negb (is_range_comment c)) l.
+
+Definition set_kids (ks : list node) (n : node) : node :=
+  match n with Node w m fl pre lsub lprog _ => Node w m fl pre lsub lprog ks end.
+
 (* rules a rule list can hold after rendering: non-empty, no white space, no comma *)
 Definition plain_byte (b : byte) : bool := negb (is_space b) && negb (byte_eqb b x2c).
 Definition plain_rule (r : rule) : bool := nonempty r && forallb plain_byte r.
